@@ -1,4 +1,4 @@
-//go:build verif
+//go:build verif && !nohook_c05
 
 package hsms
 
